@@ -646,29 +646,22 @@ def run(ctx):
         refy = [(2, 0), (1, 1), (-3, 0), (5, 2), (3, 0), (0, 2), (2, 1)]
     # refy (a, b): doubled CRPIX2 = a + b*h : first row; image centre; below the image; above it; row 1.5; the last row; row h/2+1
     # PIL-backed objects (with the Touch action) on every 4th header: the backing does not interact with the matrix entries
-    recs = []
+    # All TLC runs are independent of each other: they are started together (three at a time) and collected in a fixed order.
+    jobs_tlc = []          # (tag, module text, MaxHist, expected number of records, what)
+
+    def count_cases(kinds, ws, hs, hd, rx, ry, recy=1, peers=1):
+        return len(kinds) * len(ws) * len(hd) * len(rx) * sum(len({a + b * h for a, b in ry}) for h in hs) * recy * peers
+
     for kinds, hd in ((["image", "desc"], hdrs), (["pil"], hdrs[::4])):
-        r = ctx.tlc("MCParity", extra={"MCParity.tla": mc_module(kinds, widths, heights, hd, refx, refy)}, cfg_text=CFG % 0,
-                    workers=8, timeout=3000)
-        got = r.json_lines("R")
-        n_expected = len(kinds) * len(widths) * len(hd) * len(refx) * sum(len({a + b * h for a, b in refy}) for h in heights)
-        if len(got) != n_expected:
-            ctx.machinery("TLC emitted %d cases, expected %d" % (len(got), n_expected))
-        recs += got
+        jobs_tlc.append(("R", mc_module(kinds, widths, heights, hd, refx, refy), 0, count_cases(kinds, widths, heights, hd, refx, refy), "cases"))
     # ---- call histories: TLC generates every sequence of MAXHIST calls over {flip, ensure} (x touch for PIL-backed objects);
     # each is replayed on ONE real object and compared with the spec's state after every call
     hh = history_headers(hdrs)
     MAXHIST = 4 if ctx.quick else 5
-    hist_recs = []
     for kinds, hd, ws, hs in ((["image", "desc"], hh, widths[-1:], heights[-2:]), (["pil"], hh[::3], widths[-1:], heights[-1:])):
-        r = ctx.tlc("MCParity", extra={"MCParity.tla": mc_module(kinds, ws, hs, hd, refx[:1], refy[:2], MAXHIST)},
-                    cfg_text=CFG % MAXHIST, workers=8, timeout=3000)
-        got = r.json_lines("H")
         per_case = (3 if kinds == ["pil"] else 2) ** MAXHIST
-        n_expected = len(kinds) * len(ws) * len(hd) * sum(len({a + b * h for a, b in refy[:2]}) for h in hs) * per_case
-        if len(got) != n_expected:
-            ctx.machinery("TLC emitted %d call histories, expected %d" % (len(got), n_expected))
-        hist_recs += got
+        jobs_tlc.append(("H", mc_module(kinds, ws, hs, hd, refx[:1], refy[:2], MAXHIST), MAXHIST,
+                         count_cases(kinds, ws, hs, hd, refx[:1], refy[:2]) * per_case, "call histories"))
     # ---- WCS objects that record a pixel-grid size (equal to / larger / smaller than the image), and two Images over one buffer
     H2 = 3
     rec3 = [(0, 1), (3, 1), (-1, 1)]                    # recorded NAXIS2 = h, h + 3, h - 1
@@ -682,13 +675,21 @@ def run(ctx):
                   (["pil"], hh[5:6] if ctx.quick else hh[::6], widths[-1:], heights[-1:], refy[:1], [(0, 0)], ["none"], 6)]
     for kinds, hd, ws, hs, ry, recy, peers, nact in extra_runs:
         edits = sorted(EDITS) if nact >= 5 else []
-        r = ctx.tlc("MCParity", extra={"MCParity.tla": mc_module(kinds, ws, hs, hd, refx[:1], ry, H2, recy, peers, edits)},
-                    cfg_text=CFG % H2, workers=8, timeout=3000)
-        got = r.json_lines("H")
-        n_expected = len(kinds) * len(ws) * len(hd) * sum(len({a + b * h for a, b in ry}) for h in hs) * len(recy) * len(peers) * nact ** H2
+        jobs_tlc.append(("H", mc_module(kinds, ws, hs, hd, refx[:1], ry, H2, recy, peers, edits), H2,
+                         count_cases(kinds, ws, hs, hd, refx[:1], ry, len(recy), len(peers)) * nact ** H2, "call histories"))
+    from concurrent.futures import ThreadPoolExecutor
+
+    def run_tlc(job):
+        tag, text, mh, n_expected, what = job
+        r = ctx.tlc("MCParity", extra={"MCParity.tla": text}, cfg_text=CFG % mh, workers=3, timeout=3000)
+        got = r.json_lines(tag)
         if len(got) != n_expected:
-            ctx.machinery("TLC emitted %d call histories, expected %d" % (len(got), n_expected))
-        hist_recs += got
+            ctx.machinery("TLC emitted %d %s, expected %d" % (len(got), what, n_expected))
+        return tag, got
+    with ThreadPoolExecutor(max_workers=3) as tp:
+        outs = list(tp.map(run_tlc, jobs_tlc))
+    recs = [x for tag, got in outs if tag == "R" for x in got]
+    hist_recs = [x for tag, got in outs if tag == "H" for x in got]
     hist_recs.sort(key=lambda q: (q["orig"]["kind"], q["orig"]["w"], q["orig"]["h"], q["orig"]["cdelt"], q["orig"]["pc"], q["orig"]["p"], q["orig"]["nax"], q["orig"]["peer"], q["hist"]))
     ctx.note("call_histories", len(hist_recs))
     recs.sort(key=lambda q: (q["orig"]["kind"], q["orig"]["w"], q["orig"]["h"], q["orig"]["cdelt"], q["orig"]["pc"], q["orig"]["p"]))
